@@ -83,7 +83,7 @@ R20.6 exit status: ErrNoNewVersion maps to the distinct non-zero code, any other
 					onV = true
 				}
 			}
-			flagOK := strings.Contains(types.ExprString(call.Args[1]), `Lookup("dry-run")`)
+			flagOK := strings.HasSuffix(newFuncCanon(info, ntc).E(call.Args[1]), `.Lookup<(github.com/spf13/pflag.FlagSet).Lookup>("dry-run")`)
 			if onV && key == tagKey && flagOK {
 				okBind = true
 			} else {
